@@ -113,7 +113,7 @@ func Load(opt LoadOptions) (*World, error) {
 	}
 	for _, p := range prog.AllPackages() {
 		w.Pkgs[p.Pkg.Path()] = p
-		if strings.HasPrefix(p.Pkg.Path(), repoMod) || strings.HasPrefix(p.Pkg.Path(), "github.com/transparency-dev/merkle/rfc6962") {
+		if (strings.HasPrefix(p.Pkg.Path(), repoMod) && !strings.Contains(p.Pkg.Path(), "/cmd/")) || strings.HasPrefix(p.Pkg.Path(), "github.com/transparency-dev/merkle/rfc6962") {
 			w.InitPkgs[p.Pkg.Path()] = true
 		}
 	}
